@@ -451,6 +451,7 @@ def run(ctx):
         probs.append("expected one emission of queued segments in segments(), found %d" % len(emits))
     else:
         guard = None
+        swapped = []
         for s in sgg.dom_chain(emits[0]):
             if sg.term(s)[0] == "switch":
                 c = dep.switch_condition(sg, s)
@@ -458,12 +459,19 @@ def run(ctx):
                     tr, fa = dep.bool_branches(sg, s)
                     if sgg.dominates(tr, emits[0]):
                         guard = s
+                # the same test through mem::replace / mem::take of the flag (which reads and disarms in one step)
+                if c and c["kind"] == "call" and (F.callee_key(c["term"]) or "").rsplit("::", 1)[-1] in ("replace", "take") \
+                        and dep.has_field(dep.arg_origins(sg, c["call_bb"], 0), "outgoing::Transmit", "needs_transmit"):
+                    tr, fa = dep.bool_branches(sg, s)
+                    if sgg.dominates(tr, emits[0]):
+                        guard = s
+                        swapped.append(c["call_bb"])
         if guard is None:
             probs.append("queued segments are emitted regardless of needs_transmit")
         if not sgg.in_loop(emits[0]):
             probs.append("not every armed segment is emitted (no loop)")
         clears = [(bb, st) for bb, st in K.assigns_to_field(sg, "outgoing::Transmit", ("needs_transmit",)) if F.const_int(st[2][1]) == 0]
-        if len(clears) != 1:
+        if len(clears) + len(swapped) != 1:
             probs.append("needs_transmit is not cleared after emission")
     (ctx.bad if probs else ctx.ok)("T-RETX-ARM", "T-RETX-ARM:segments", sg.span, "; ".join(probs) if probs else
         "segments() emits exactly the armed queue entries and disarms them")
